@@ -19,7 +19,7 @@ from .values import (Top, GE2, Ref, ClassVal, FuncVal, BoundMeth, Builtin, Modul
                      SuperVal, AbsSeq, LenOf, SymLen, HObj, Exc, State, vkey)
 
 MAX_DEPTH = 14
-MAX_STATES = 400000
+MAX_STATES = 4000000
 
 
 class Unsupported(AnalysisError):
@@ -31,8 +31,12 @@ def is_concrete(v):
 
 
 class Interp(object):
-    def __init__(self, index, stubs=None, opaque=None, on_event=None, name="explore"):
+    def __init__(self, index, stubs=None, opaque=None, on_event=None, name="explore", on_return=None,
+                 attr_stubs=None):
         self.ix = index
+        self.on_return = on_return           # callable(func, state, kind, value)
+        self.attr_stubs = dict(attr_stubs or {})   # 'Cls.attr' -> fn(interp, st, base, node) -> outcomes
+        self.track_len = False               # keep len()/counter facts of abstract loops (outline roll-up)
         self.stubs = dict(stubs or {})       # fullname or 'Class.method' or name -> stub(interp, st, args, kwargs, node)
         self.opaque = set(opaque or ())      # dotted names / attribute names treated as pure unknown calls
         self.on_event = on_event             # callable(state, event) -> None (monitors; may raise)
@@ -213,6 +217,8 @@ class Interp(object):
         res = []
         for (s, kind, val) in outs:
             s.frames.pop()
+            if self.on_return is not None:
+                self.on_return(func, s, kind, val)
             if kind == "next":
                 res.append((s, "val", None))
             elif kind == "return":
@@ -256,16 +262,39 @@ class Interp(object):
         done = []
         for stmt in body:
             nxt = []
+            if isinstance(stmt, ast.For) and len(states) > 1:
+                self.stats["stmts"] += len(states)
+                for out in self.for_multi(states, stmt):
+                    if out[1] == "next":
+                        nxt.append(out[0])
+                    else:
+                        done.append(out)
+                states = self.dedupe(nxt)
+                if not states:
+                    break
+                continue
             for s in states:
                 for out in self.exec_stmt(s, stmt):
                     if out[1] == "next":
                         nxt.append(out[0])
                     else:
                         done.append(out)
-            states = nxt
+            states = self.dedupe(nxt) if isinstance(stmt, (ast.For, ast.If, ast.Try)) else nxt
             if not states:
                 break
         return done + [(s, "next", None) for s in states]
+
+    def dedupe(self, states, threshold=10):
+        """Merge abstract states that are identical up to the path that led to them."""
+        if len(states) <= threshold:
+            return states
+        seen = {}
+        for s in states:
+            k = s.key()
+            if k not in seen:
+                seen[k] = s
+        self.stats["merged"] = self.stats.get("merged", 0) + len(states) - len(seen)
+        return list(seen.values())
 
     def exec_stmt(self, st, node):
         self.stats["stmts"] += 1
@@ -580,13 +609,46 @@ class Interp(object):
         return res
 
     def s_For(self, st, node):
+        return self.for_multi([st], node)
+
+    def for_multi(self, states, node):
+        """Execute a for-statement for several incoming states; loops over abstract
+        sequences share one fixpoint (one set of loop-head states)."""
         res = []
-        for (s, k, it) in self.eval(st, node.iter):
-            if k != "val":
-                res.append((s, k, it))
-                continue
-            res.extend(self.loop(s, node, it))
+        abstract = []
+        for st in states:
+            for (s, k, it) in self.eval(st, node.iter):
+                if k != "val":
+                    res.append((s, k, it))
+                    continue
+                for (s2, k2, it2) in self.resolve_iter(s, it, node):
+                    if k2 != "val":
+                        res.append((s2, k2, it2))
+                        continue
+                    kind, seq = self.iter_values(s2, it2, node)
+                    if kind == "concrete":
+                        res.extend(self.loop_concrete(s2, node, seq))
+                    else:
+                        abstract.append((s2, seq))
+        if abstract:
+            res.extend(self.loop_abstract(abstract, node))
         return res
+
+    def resolve_iter(self, st, it, node):
+        """Objects with an in-repo __iter__: call it (may fork)."""
+        if isinstance(it, Ref):
+            o = st.obj(it)
+            if o.kind == "obj" and isinstance(o.cls, ClassInfo) and "@seq" not in o.fields:
+                it_m = o.cls.lookup("__iter__")
+                if it_m is not None:
+                    out = []
+                    for (s2, k2, v2) in self.call_function(st, it_m, [], {}, node, self_val=it):
+                        if k2 != "val":
+                            out.append((s2, k2, v2))
+                        else:
+                            out.extend(self.resolve_iter(s2, v2, node))
+                    return out
+        return [(st, "val", it)]
 
     def iter_values(self, st, it, node):
         """Normalise an iterable value: -> ('concrete', [values]) | ('abs', AbsSeq)."""
@@ -621,62 +683,70 @@ class Interp(object):
             return ("abs", AbsSeq("top:" + tag, lambda interp, s, _t=tag, _i=it.input: [(s, Top("elem:" + _t, _i), "elem")]))
         raise Unsupported("iteration over %r at %s" % (it, self.loc(node)))
 
-    def loop(self, st, node, it):
-        kind, seq = self.iter_values(st, it, node)
+    def loop_concrete(self, st, node, seq):
         res = []
-        if kind == "concrete":
-            states = [st]
-            broke = []
-            for elem in seq:
-                nxt = []
-                for s in states:
-                    for (s1, k1, v1) in self.assign(s, node.target, elem):
-                        if k1 != "next":
-                            res.append((s1, k1, v1))
-                            continue
-                        for (s2, k2, v2) in self.exec_block(s1, node.body):
-                            if k2 in ("next", "continue"):
-                                nxt.append(s2)
-                            elif k2 == "break":
-                                broke.append(s2)
-                            else:
-                                res.append((s2, k2, v2))
-                states = nxt
+        states = [st]
+        broke = []
+        for elem in seq:
+            nxt = []
             for s in states:
-                if node.orelse:
-                    res.extend(self.exec_block(s, node.orelse))
-                else:
-                    res.append((s, "next", None))
-            res.extend((s, "next", None) for s in broke)
-            return res
-        # -- abstract sequence: fixpoint over loop-head states
-        cnt_key = "#iter:" + seq.name
-        track_key = "#track:" + seq.name
-        outer_cnt = st.ghost.get(cnt_key)
-        outer_track = st.ghost.get(track_key)
-        st.ghost[cnt_key] = 0
-        # counters that are 0 at loop entry may be compared with len(seq) later
-        st.ghost[track_key] = tuple(sorted((name, "eq") for name, val in st.frames[-1].items()
-                                           if isinstance(val, int) and not isinstance(val, bool) and val == 0))
+                for (s1, k1, v1) in self.assign(s, node.target, elem):
+                    if k1 != "next":
+                        res.append((s1, k1, v1))
+                        continue
+                    for (s2, k2, v2) in self.exec_block(s1, node.body):
+                        if k2 in ("next", "continue"):
+                            nxt.append(s2)
+                        elif k2 == "break":
+                            broke.append(s2)
+                        else:
+                            res.append((s2, k2, v2))
+            states = self.dedupe(nxt)
+        for s in states:
+            if node.orelse:
+                res.extend(self.exec_block(s, node.orelse))
+            else:
+                res.append((s, "next", None))
+        res.extend((s, "next", None) for s in broke)
+        return res
+
+    def loop_abstract(self, inits, node):
+        """inits: list of (state, AbsSeq).  Fixpoint over loop-head states."""
+        res = []
         seen = {}
-        work = [st]
-        seen[st.key()] = True
-        self.stats["loop_heads"] += 1
+        work = []
         exits = []
+        saved = {}
+        for (st, seq) in inits:
+            cnt_key = "#iter:" + seq.name
+            track_key = "#track:" + seq.name
+            outer = (st.ghost.get(cnt_key), st.ghost.get(track_key))
+            st.ghost[cnt_key] = 0
+            st.ghost[track_key] = tuple(sorted((name, "eq") for name, val in st.frames[-1].items()
+                                               if isinstance(val, int) and not isinstance(val, bool) and val == 0)) \
+                if self.track_len else ()
+            key = (seq.name, outer, st.key())
+            if key in seen:
+                continue
+            seen[key] = True
+            self.stats["loop_heads"] += 1
+            work.append((st, seq, outer))
         while work:
-            head = work.pop()
+            head, seq, outer = work.pop()
+            cnt_key = "#iter:" + seq.name
+            track_key = "#track:" + seq.name
             self.budget -= 1
             if self.budget < 0:
                 raise AnalysisError("state budget exhausted in loop at %s" % self.loc(node))
             # (a) sequence exhausted
             if not (seq.nonempty and head.ghost.get(cnt_key) == 0):
-                ex = head.fork()
-                exits.append(ex)
+                exits.append((head.fork(), seq, outer))
             # (b) one more element
             base = head.fork()
             before = {name: base.frames[-1].get(name) for (name, _) in base.ghost.get(track_key, ())}
             for (s0, elem, label) in seq.factory(self, base):
                 s0.note("%s: next %s element: %s" % (self.loc(node), seq.name, label))
+                self.emit(s0, ("iter", id(node), seq.name, elem))
                 c = s0.ghost.get(cnt_key, 0)
                 s0.ghost[cnt_key] = 1 if c == 0 else GE2
                 for (s1, k1, v1) in self.assign(s0, node.target, elem):
@@ -685,7 +755,6 @@ class Interp(object):
                         continue
                     for (s2, k2, v2) in self.exec_block(s1, node.body):
                         if k2 in ("next", "continue"):
-                            # update counter tracking
                             tr = []
                             for (name, rel) in s2.ghost.get(track_key, ()):
                                 b, a = before.get(name), s2.frames[-1].get(name)
@@ -694,25 +763,29 @@ class Interp(object):
                                     tr.append((name, rel))
                                 elif inc == 0:
                                     tr.append((name, "lt"))
-                                # else: untracked
                             s2.ghost[track_key] = tuple(tr)
-                            key = s2.key()
+                            key = (seq.name, outer, s2.key())
                             if key not in seen:
                                 seen[key] = True
                                 self.stats["loop_heads"] += 1
-                                work.append(s2)
+                                work.append((s2, seq, outer))
                         elif k2 == "break":
-                            s2.ghost["#broke:" + seq.name] = True
-                            exits_b = s2
-                            _restore(exits_b, cnt_key, outer_cnt, track_key, None, keep_track=True)
-                            res.append((exits_b, "next", None))
+                            self.emit(s2, ("loopexit", id(node), seq.name))
+                            _restore(s2, cnt_key, outer[0], track_key, None)
+                            res.append((s2, "next", None))
                         else:
                             res.append((s2, k2, v2))
-        for ex in exits:
-            # keep len-tracking facts for after the loop: '#len:<seq>' -> ((name, rel), ...)
-            ex.ghost["#len:" + seq.name] = ex.ghost.get(track_key, ())
-            ex.ghost["#n:" + seq.name] = ex.ghost.get(cnt_key, 0)
-            _restore(ex, cnt_key, outer_cnt, track_key, outer_track)
+        final = []
+        for (ex, seq, outer) in exits:
+            cnt_key = "#iter:" + seq.name
+            track_key = "#track:" + seq.name
+            self.emit(ex, ("loopexit", id(node), seq.name))
+            if self.track_len:
+                ex.ghost["#len:" + seq.name] = ex.ghost.get(track_key, ())
+                ex.ghost["#n:" + seq.name] = ex.ghost.get(cnt_key, 0)
+            _restore(ex, cnt_key, outer[0], track_key, outer[1])
+            final.append(ex)
+        for ex in self.dedupe(final, threshold=1):
             if node.orelse:
                 res.extend(self.exec_block(ex, node.orelse))
             else:
